@@ -267,8 +267,15 @@ def compare_instance_mode(a, b, what_a="A", what_b="B", key_norm=None):
             ka = set(key_norm(k) for k in ka)
             kb = set(key_norm(k) for k in kb)
         if ka != kb:
-            return Failure("instance-set-mismatch",
-                           "only in %s: %s; only in %s: %s" % (what_a, sorted(ka - kb), what_b, sorted(kb - ka)))
+            # instances that differ all have probability 0 on their side (or are non-ground placeholders)?
+            def _zero(res, keys):
+                m = dict(((key_norm(k) if key_norm else k), v) for k, v in res[1].items())
+                return all(abs(float(m.get(k, 0.0))) <= 1e-12 for k in keys)
+
+            kind = "instance-set-mismatch"
+            if _zero(a, ka - kb) and _zero(b, kb - ka):
+                kind = "zero-instance-set-mismatch"
+            return Failure(kind, "only in %s: %s; only in %s: %s" % (what_a, sorted(ka - kb), what_b, sorted(kb - ka)))
     return None
 
 
